@@ -300,7 +300,11 @@ func (vm *Vm) runCroak(ctx context.Context, b []byte) ([]byte, error) {
 	if r {
 		logg.InfoCtxf(ctx, "croak! purging and moving to top", "signal", sig)
 		vm.Reset()
+		levels := vm.ca.Levels()
 		vm.ca.Reset()
+		for i := uint32(1); i < levels; i++ {
+			vm.ca.Push()
+		}
 		b = []byte{}
 	}
 	return b, nil
